@@ -89,6 +89,21 @@ theorem Ad_inv (a : Fin 9 → ℝ) :
     (C01.SE23Mrp.toMatrix_inverse_left a) (C04.SE23Mrp.Ad_conj _) (C04.SE23Mrp.Ad_conj a)
 end SE23Mrp
 
+namespace SE3Quat
+theorem inverse_unit (a : Fin 7 → ℝ) (ha : qnormSq (C04.SE3Quat.rot a) = 1) :
+    qnormSq (C04.SE3Quat.rot (SE3Quat.inverse.r_vec a)) = 1 := by
+  have ha' : a 3 ^ 2 + a 4 ^ 2 + a 5 ^ 2 + a 6 ^ 2 = 1 := by simpa [qnormSq, C04.SE3Quat.rot] using ha
+  simp [qnormSq, C04.SE3Quat.rot, cas_defs, cas_real]
+  linear_combination ha'
+
+/-- **Ad_{X⁻¹} Ad_X = 1 on SE(3), quaternion form, every unit X.** -/
+theorem Ad_inv (a : Fin 7 → ℝ) (ha : qnormSq (C04.SE3Quat.rot a) = 1) :
+    SE3Quat.Ad.M_mat (SE3Quat.inverse.r_vec a) * SE3Quat.Ad.M_mat a = 1 :=
+  AdConj.inv_of_conj (fun y => se3.toMatrix.M_mat y) se3_hat_injective _ _ _ _
+    (C01.SE3Quat.toMatrix_inverse_left a ha)
+    (C04.SE3Quat.Ad_conj _ (inverse_unit a ha)) (C04.SE3Quat.Ad_conj a ha)
+end SE3Quat
+
 namespace SE3Mrp
 /-- **Ad_{X⁻¹} Ad_X = 1 on SE(3), MRP form, every X.** -/
 theorem Ad_inv (a : Fin 6 → ℝ) :
